@@ -392,6 +392,11 @@ func (e *Engine) run(fr *Frame, st *State, b *ssa.BasicBlock, idx int, prev *ssa
 				return nil
 			case *ssa.Call:
 				outs := e.doCall(fr, st, x.Common(), ins, x)
+				if len(outs) == 0 {
+					// a path that ends at a call is either a callee that never returns or a
+					// contract clause that cannot hold there: say so in the evidence (vacuity guard)
+					e.noteAssumption(fmt.Sprintf("a path of %s ends at its call of %s: no outcome of the callee is feasible there (callee never returns, or a contract clause is contradictory at this call site)", funcKey(fr.fn), calleeName(x.Common())))
+				}
 				if len(outs) == 0 && os.Getenv("TQV_DEBUG") != "" {
 					fmt.Fprintf(os.Stderr, "path ends at call %s in %s (%s)\n", calleeName(x.Common()), funcKey(fr.fn), e.posStr(ins.Pos()))
 				}
